@@ -52,6 +52,7 @@ type accessor struct {
 	segs       []accSeg
 	whole      string   // whole-value accessor of this path (non-integer field, or slice)
 	clobber    []string // setter: stores whose other bits are not preserved
+	altered    []string // setter: a store whose value is a merge (clamped / defaulted), not the argument
 	carry      string   // setter: kept bits and new bits overlap in an addition
 	lost       []accSeg // setter: bits overwritten that are neither the argument's nor kept
 	extra      []string // setter: other effects
@@ -139,13 +140,17 @@ func analyseAccessor(fn *ssa.Function, typ, field string, get bool) *accessor {
 	a := &accessor{typ: typ, field: field, get: get, fn: fn}
 	p := core.NewPather(fn)
 	ba := core.NewBitAnalyzer(fn)
-	if len(fn.Blocks) != 1 {
+	if len(fn.Blocks) != 1 && get {
 		a.unknown = "control flow"
 		return a
 	}
 	var copies [][2]string
 	var ret *ssa.Return
-	for _, in := range fn.Blocks[0].Instrs {
+	var instrs []ssa.Instruction
+	for _, b := range fn.Blocks {
+		instrs = append(instrs, b.Instrs...)
+	}
+	for _, in := range instrs {
 		switch x := in.(type) {
 		case *ssa.Return:
 			ret = x
@@ -173,6 +178,11 @@ func analyseAccessor(fn *ssa.Function, typ, field string, get bool) *accessor {
 			if !strings.HasPrefix(addr, "p0.") {
 				a.unknown = "setter writes " + addr
 				return a
+			}
+			if ph, isPhi := stripConv(x.Val).(*ssa.Phi); isPhi {
+				// the value stored depends on a branch: a clamp or a default instead of the argument
+				a.altered = append(a.altered, fmt.Sprintf("%s <- %s", addr, p.Path(ph)))
+				continue
 			}
 			if core.NewBitAnalyzer(fn).Bits(x.Val) == nil {
 				// non-integer store: the parameter itself, or something derived
@@ -436,9 +446,11 @@ func r9acc(c *core.Ctx) {
 	if !c.Once("r9acc") {
 		return
 	}
-	const RP, RL, RK = "R9.acc.pair", "R9.acc.layout", "R9.acc.keep"
+	const RP, RL, RK, RN = "R9.acc.pair", "R9.acc.layout", "R9.acc.keep", "R9.acc.len"
+	nLen := 0
 	c.Rule(RP, "every Get<F>/Set<F> pair of the NAS IE value types reads and writes the same octets and bits (same store, same bit range, same alignment)")
 	c.Rule(RL, "the octet/bit position of every IE field (getter and setter) equals the frozen layout table T-24501-IELAYOUT (TS 24.501 9.11 figures)")
+	c.Rule(RN, "SetLen stores its argument unchanged and, for variable-length IEs, allocates Buffer with exactly Len octets")
 	c.Rule(RK, "no constructor of the emulator calls a setter that destroys neighbouring bits after the field stored in those bits was set on the same value")
 	model := buildAccModel(c)
 	nPairs, nLayout, nKeep := 0, 0, 0
@@ -473,6 +485,24 @@ func r9acc(c *core.Ctx) {
 		if pr.set.carry != "" {
 			c.Fail(RP, key, pos(pr.set), "%s", pr.set.carry)
 			continue
+		}
+		if len(pr.set.altered) > 0 {
+			c.Fail(RP, key, pos(pr.set), "setter does not store its argument: %s (a value that is clamped, defaulted or otherwise replaced is not the value the caller or the decoder supplied)", strings.Join(pr.set.altered, "; "))
+			continue
+		}
+		if pr.field == "Len" {
+			// SetLen of a variable-length IE sizes Buffer: exactly Len octets (the codec writes Buffer whole / reads Buffer[:Len])
+			nLen++
+			okLen := true
+			for _, e := range pr.set.extra {
+				if strings.HasPrefix(e, "p0.Buffer=") && e != "p0.Buffer=makeslice(p0.Len)" && e != "p0.Buffer=makeslice(p1)" {
+					okLen = false
+					c.Fail(RN, key, pos(pr.set), "SetLen allocates %s: Buffer must have exactly Len octets (the encoder writes Buffer whole, the decoder fills Buffer[:Len])", e)
+				}
+			}
+			if okLen {
+				c.Ok(RN, key, pos(pr.set), "Len := argument; "+strings.Join(pr.set.extra, " "))
+			}
 		}
 		if pr.get.unknown != "" || pr.set.unknown != "" {
 			c.SoftUndecided("nasType.%s.%s: accessor not in a recognised form (get: %s; set: %s)", pr.typ, pr.field, pr.get.unknown, pr.set.unknown)
@@ -579,5 +609,6 @@ func r9acc(c *core.Ctx) {
 	}
 	c.Floor(RP, nPairs, 735)
 	c.Floor(RL, nLayout, 735)
+	c.Floor(RN, nLen, 66)
 	c.Note("R9.acc: %d accessor pairs summarised, %d compared with the layout table (%d table rows without a pair in the tree), %d setter calls in the emulator's constructors checked for destroying earlier fields", nPairs, nLayout, missing, nKeep)
 }
